@@ -127,6 +127,19 @@ CHECKS = {
              'sampled grid only. ' + TB,
         technique='Lean 4 proof (Mathlib real trigonometry, ring/linear_combination) + Float-instantiated model correspondence + '
                   '50-digit mpmath oracle in a side process'),
+    'C17': dict(
+        text="Lean 4 theorems over R about sarpy's remap transfer functions: clip-and-cast lands in [0, max] for every input including "
+             'NaN/+-inf; Density family, PEDF, Linear, Logarithmic and NRL transfer functions are non-decreasing in amplitude (compositions '
+             'of monotone maps, Real.log monotone); a remap with fixed global parameters is a List.map and therefore equal over any '
+             'chunking / pixel by pixel and independent of every other pixel; LUT remaps are table lookup of the monochrome result. The same '
+             'definitions, run at IEEE double, are compared with every registered remap (8/16 bit) on adversarial arrays each run, and a '
+             'direct oracle checks range, monotonicity, 5 chunkings, pixel-by-pixel and NaN/inf replacement on the implementation.',
+        design='DESIGN.md 6/C17',
+        note='proved over R for the model; partial: float rounding, numpy NaN cast, GDM cut-off derivation and the reader statistics are '
+             'tied by correspondence / oracle only; that the code is pointwise is checked by the oracle (the all-zero chunk shortcut that '
+             'broke it was repaired; the proved negation witness of the old code is kept in Props/C17). ' + TB,
+        technique='Lean 4 proof (order lemmas, Real.log monotone, List.map/flatten) + Float-instantiated model correspondence + '
+                  'chunking/monotonicity oracle on the implementation'),
 }
 
 
